@@ -45,6 +45,15 @@ class _Fam:
     def batch(self):
         return []
 
+    alt = False
+
+    def Z0(self):
+        """initial inducing points handed to the constructor; with `alt` set (receiving model of a state_dict round trip)
+        other points: whatever the model uses afterwards has to come out of the loaded state"""
+        if self.alt:
+            return util.randn(util.gen(self.init_seed + 4242), 4, D)
+        return self.X[..., :4, :].clone() if self.X.dim() == 2 else self.X[0, :4].clone()
+
     def build(self):
         raise NotImplementedError
 
@@ -110,7 +119,7 @@ class SGPR(Default):
     name = "sgpr"
 
     def kernel(self, lik):
-        return gpytorch.kernels.InducingPointKernel(gpytorch.kernels.ScaleKernel(gpytorch.kernels.RBFKernel()), inducing_points=self.X[:4].clone(), likelihood=lik)
+        return gpytorch.kernels.InducingPointKernel(gpytorch.kernels.ScaleKernel(gpytorch.kernels.RBFKernel()), inducing_points=self.Z0(), likelihood=lik)
 
 
 class _VGP(gpytorch.models.ApproximateGP):
@@ -133,7 +142,7 @@ class SVGP(_Fam):
 
     def build(self):
         V = gpytorch.variational
-        Z = self.X[:4].clone()
+        Z = self.Z0()
         m = _VGP(Z, getattr(V, self.strat), getattr(V, self.dist))
         m.likelihood = gpytorch.likelihoods.GaussianLikelihood()
         return m
@@ -178,7 +187,7 @@ class SVGPBD(SVGP):
     name = "svgp_batch_decoupled"
 
     def build(self):
-        m = _BDModel(self.X[:4].clone())
+        m = _BDModel(self.Z0())
         m.likelihood = gpytorch.likelihoods.GaussianLikelihood()
         return m
 
@@ -201,7 +210,7 @@ class LMC(SVGP):
 
     def build(self):
         L, T = 2, 3
-        Z = self.X[:4].clone().unsqueeze(0).expand(L, 4, D).clone()
+        Z = self.Z0().unsqueeze(0).expand(L, 4, D).clone()
         m = _LMCModel(Z, L, T)
         m.likelihood = gpytorch.likelihoods.MultitaskGaussianLikelihood(num_tasks=T)
         return m
